@@ -143,6 +143,7 @@ def build(shape):
         return ('cross', envs, [RandomLearner(seed=3)], [SummaryEvaluator(), SequentialCB()])
     if shape.startswith('P:'):
         envs, kind = PIPES[shape[2:]]()
+        if kind == 'greedy': return ('cross', envs, [GreedyLearner()], SequentialCB(record=['reward', 'action', 'probability']))
         lrns = [RandomLearner(seed=3), PmfLearner()] if kind == 'igl' else [BanditEpsilonLearner(0.3, seed=6), PmfLearner()]
         return ('cross', envs, lrns, _pipe_evaluator(kind))
     if shape.startswith('L:'):
@@ -228,6 +229,7 @@ PIPES = {
     'kernel':         lambda: (Environments.from_kernel_synthetic(6, n_actions=3, n_context_features=2, n_action_features=1, n_exemplars=2, kernel='exponential', gamma=.5, seed=4), 'cb'),
     'mlp':            lambda: (Environments.from_mlp_synthetic(6, n_actions=3, n_context_features=2, n_action_features=1, seed=4), 'cb'),
     'linear-feats':   lambda: (Environments.from_linear_synthetic(6, n_actions=3, n_context_features=2, n_action_features=2, reward_features=['a', 'xa', 'xxa'], seed=6), 'cb'),
+    'tiny-gap':       lambda: (Environments(TinyGapEnv(9)).materialize(), 'greedy'),      # rewards differing by < 1e-5, a learner whose choices hinge on them
     'cache-chunk':    lambda: (_syn(5, 2).shuffle(seed=8).cache().noise(reward=(0, .1), seed=[5, 6]).chunk(cache=False), 'cb'),
 }
 
@@ -289,3 +291,37 @@ def _env_for(kind):
     if kind == 'log2': return _syn0(12, 3).logged(RandomLearner(seed=5), seed=2.5) + _syn0(12, 2).logged(BanditEpsilonLearner(0.5, seed=2), seed=4)
     if kind == 'igl': return _syn0(6, 1).binary().grounded(4, 2, 5, 2, seed=3)
     raise ValueError(kind)
+
+
+# ---------------------------------------------------------------- values that must survive the pickle trip EXACTLY
+class TinyGapEnv:
+    """In-memory environment holding DiscreteReward objects whose values differ by less than 1e-5 (the precision of coba's printed /
+    recorded rewards): a worker must see exactly the values the in-process run sees."""
+    def __init__(self, n=8): self.n = n
+
+    @property
+    def params(self): return {'env_type': 'TinyGap', 'n': self.n}
+
+    def read(self):
+        from coba.primitives import DiscreteReward
+        base = [0.300001, 0.300004, 0.3000025]
+        for i in range(self.n):
+            vals = base[i % 3:] + base[:i % 3]
+            yield {'context': i % 2, 'actions': [0, 1, 2], 'rewards': DiscreteReward([0, 1, 2], vals)}
+
+
+class GreedyLearner(Learner):
+    """Deterministic: plays the action with the largest mean of the rewards it was shown (ties -> the first), untried actions first."""
+    def __init__(self): self.sums = {}; self.cnts = {}
+
+    @property
+    def params(self): return {'family': 'GreedyLearner'}
+
+    def predict(self, context, actions):
+        for a in actions:
+            if a not in self.cnts: return a, 1.0
+        return max(actions, key=lambda a: (self.sums[a] / self.cnts[a], -actions.index(a))), 1.0
+
+    def learn(self, context, action, reward, probability, **kw):
+        self.sums[action] = self.sums.get(action, 0) + reward
+        self.cnts[action] = self.cnts.get(action, 0) + 1
